@@ -124,7 +124,9 @@ def _truth(sim, ctx):
            "sessions": [{k: v for k, v in a.items() if not k.startswith("_")} for a in act],
            "last_pilots": lp, "last_rates": rates, "peak": _f(sim.peak),
            "queue_min": min(q) if q else None, "hist_max": max(hist) if hist else None, "hist_len": len(hist),
-           "connected": [(e._ev._session_id if e._ev is not None else None) for e in evses]}
+           "connected": [(e._ev._session_id if e._ev is not None else None) for e in evses],
+           "connected_remaining": [(_f(e._ev._requested_energy - e._ev._energy_delivered) if e._ev is not None else None)
+                                   for e in evses]}
     if True:
         # a constraint-free network is described by a 0 x N view (defect F3, repaired in /repo)
         cm = net.constraint_matrix
@@ -655,6 +657,18 @@ def oracle(case, obs):
         else:
             fails.append({"kind": "infra_wrong", "detail": f"period {t}: infrastructure_info() raised {v.get('infra_err')}"})
 
+    # --- exact-boundary stream: the generator's verified expectation (remaining == / one ulp above / below 1e-3)
+    for sid, b in (case.get("boundary") or {}).items():
+        if obs["err"] is not None:
+            break
+        for v in views:
+            if b["from"] <= v["t"] < b["until"]:
+                handed = any(s["session"] == sid for s in v["sessions"])
+                if handed != b["active"]:
+                    fails.append({"kind": "view_mismatch:sessions", "detail": f"period {v['t']}: session {sid} with remaining demand "
+                                  f"{b['remaining']!r} kWh ({b['class']} the 1e-3 threshold; active iff remaining > 1e-3) handed out: {handed}"})
+                    break
+
     # --- the views against the FINAL trajectory and the layout (independent of the same-moment snapshot)
     if valid and obs["err"] is None:
         sts = [st["id"] for st in case["stations"]]
@@ -749,7 +763,8 @@ def _basic(i, kind=None):
 
 
 def corpus():
-    out = []
+    import random as _random
+    out = [boundary_case(_random.Random(1000 + i)) for i in range(12)]
     two = [_basic(0), _basic(1, {"t": "finite", "rates": [8, 16, 24, 32]})]
     sched = {"type": "scripted", "default": [["S0", [16.0, 16.0]], ["S1", [8.0, 8.0]]], "script": []}
     for mr in MR_CHOICES + [0]:
@@ -849,6 +864,87 @@ def exhaustive():
     return out
 
 
+# ------------------------------------------------------------------ exact-boundary stream (fully-charged threshold)
+
+EPS = 1e-3          # the property's threshold: a connected session is handed out iff remaining demand > 1e-3 kWh
+
+
+def _ideal_step(pilot, V, period, cap, charge, maxp):
+    """One `EV.charge` on an ideal battery in the implementation's own float operations (battery.py:45-70,
+    ev.py:130-144): returns (energy added to energy_delivered, new battery charge)."""
+    h = period / 60
+    cp = min(pilot * V / 1000, maxp, (cap - charge) / h)
+    rate = cp * 1000 / V
+    return (rate * V) / 1000 * h, charge + cp * h
+
+
+BOUNDARY_GRID = [(V, per, p, k) for V in (125, 250, 500, 1000, 240, 208) for per in (15, 30, 7.5, 1, 5)
+                 for p in (0.125, 0.25, 0.5, 1.0, 2.0) for k in (1, 2, 3)]
+
+
+def _boundary_points():
+    """(V, period, pilot, k, delivered) such that after k periods at `pilot` the energy delivered d is
+    float-exactly known AND r = d + 1e-3 is a double with r - d == 1e-3 EXACTLY (verified here, in double
+    arithmetic; most of the grid — e.g. 240 V x 1 min x 1 A — fails this test and is dropped)."""
+    out = []
+    for V, per, p, k in BOUNDARY_GRID:
+        d, ch = 0, 10.0
+        for _ in range(k):
+            e, ch = _ideal_step(p, V, per, 100.0, ch, 50.0)
+            d = d + e
+        r = d + EPS
+        if d > 0 and r - d == EPS and math.nextafter(r, math.inf) - d > EPS and math.nextafter(r, 0.0) - d < EPS:
+            out.append((V, per, p, k, d))
+    return out
+
+
+_BP = None
+
+
+def boundary_case(rng, mr=None):
+    """2-3 stations, each with ONE session whose remaining demand arrives exactly at / one ulp above / one ulp
+    below 1e-3 kWh (after k charging periods, or from the plug-in on: requested = 0.001 exactly) and then stays
+    there (pilot 0) for several periods while connected.  `boundary` records the generator's verified
+    expectation: from period `from` on the session is / is not handed out."""
+    global _BP
+    if _BP is None:
+        _BP = _boundary_points()
+        assert len(_BP) >= 10, "exact-boundary grid too thin"
+    V, per, p, k, d = rng.choice(_BP)
+    ns = rng.choice([2, 3, 3])
+    stations = [{"id": f"S{i}", "kind": {"t": "cont", "min": 0, "max": 32}, "V": V, "phase": [0, 30, -90][i]} for i in range(ns)]
+    classes = ["eq", "above", "below"]
+    rng.shuffle(classes)
+    sessions, boundary, script = [], {}, {}
+    horizon = 0
+    for i in range(ns):
+        cls = classes[i % 3]
+        from_plugin = rng.random() < 0.35
+        arr = rng.randint(0, 3)
+        if from_plugin:
+            kk, dd = 0, 0.0
+        else:
+            kk, dd = k, d
+        r = dd + EPS
+        req = {"eq": r, "above": math.nextafter(r, math.inf), "below": math.nextafter(r, 0.0)}[cls]
+        # verified in double arithmetic, exactly as the property reads: active iff requested - delivered > 1e-3
+        rem = req - dd
+        assert (rem == EPS) if cls == "eq" else (rem > EPS) if cls == "above" else (rem < EPS)
+        dep = arr + kk + rng.randint(2, 4)
+        sessions.append({"session": f"b{i}", "station": f"S{i}", "arrival": arr, "departure": dep, "requested": req,
+                         "batt": {"two": False, "cap": 100.0, "init": 10.0, "maxp": 50.0}, "est": None})
+        boundary[f"b{i}"] = {"class": cls, "from": arr + kk, "until": dep, "active": cls == "above", "remaining": rem}
+        for t in range(arr, arr + kk):
+            script.setdefault(t, {})[f"S{i}"] = p
+        horizon = max(horizon, dep)
+    rng.shuffle(sessions)
+    sc = [{"t": t, "sched": [[st["id"], [float(script.get(t, {}).get(st["id"], 0.0))]] for st in stations]}
+          for t in range(0, horizon + 1)]
+    return {"stations": stations, "constraint": {"limit": 64.0} if rng.random() < 0.7 else None, "sessions": sessions,
+            "recomputes": [], "period": per, "max_recompute": 1 if mr is None else mr, "noise": [],
+            "sched": {"type": "scripted", "default": [], "script": sc}, "boundary": boundary}
+
+
 def generate(rng, n, tier):
     if tier == "thorough":
         # the enumeration + a reduced random stream (total wall stays well inside the thorough budget)
@@ -861,6 +957,9 @@ def generate(rng, n, tier):
             c = S.gen_case(rng, malformed=True, max_sessions=12)
         elif r == 13:
             c = _late(rng, S.gen_case(rng, max_sessions=8))
+        elif r in (2, 16):
+            out.append(boundary_case(rng))
+            continue
         elif r in (4, 11, 22):
             c = S.gen_case(rng, real_algos=True, max_sessions=10)
         else:
@@ -918,6 +1017,15 @@ def features(case, obs):
         f.append("view_order_differs_from_arrival_order")
     if case.get("exhaustive"):
         f.append("exhaustive_small_scope")
+    rems = [_num(x) for v in views for x in v["truth"].get("connected_remaining", []) if x is not None]
+    if any(x == EPS for x in rems):
+        f.append("threshold_exact_equality")
+    if any(EPS < x <= EPS * (1 + 1e-12) for x in rems):
+        f.append("threshold_plus_ulps")
+    if any(EPS * (1 - 1e-12) <= x < EPS for x in rems):
+        f.append("threshold_minus_ulps")
+    if case.get("boundary"):
+        f.append("boundary_stream")
     if any(s["arrival"] < 0 for s in case["sessions"]) or any(r < 0 for r in case.get("recomputes", [])):
         f.append("late_event")
     if any(s["arrival"] in {x["departure"] for x in case["sessions"]} for s in case["sessions"]):
